@@ -155,7 +155,39 @@ Definition ok_sendtofx : bool :=
        ["call:outer:BaseCoinToIBCCoin"; "if(err){"; "return-err"; "}"; "if(err){"; "return-err"; "}";
         "call:outer:Transfer"; "if(err){"; "return-err"; "}"; "return-err"].
 
+(* the refund of an outgoing bridge call that failed or timed out (bridge_call_refund.go, called by BridgeCallResultHandler and by
+   cleanupTimeOutBridgeCall): NO error of it is tolerated — the coin transfer and the "refund to evm" conversion both panic on
+   error (M_Cache.result_handler / cleanup_calls: an unpayable refund fails the whole transaction, finding C18-2).  The
+   conversion (bridgeCallTransferTokens) is a loop over the coins on the caller's context with no branch, returning at the
+   first error: tolerating its error without a branch around the loop would keep the conversions of the coins before the
+   failing one *)
+Definition ok_outgoing_refund : bool :=
+  list_eqb shape_HandleOutgoingBridgeCallRefund
+    ["call:outer:bridgeCallTransferCoins"; "if(err){"; "panic"; "}";
+     "if(k.HasBridgeCallFromMsg(ctx,data.Nonce)){"; "return"; "}";
+     "call:outer:bridgeCallTransferTokens"; "if(err){"; "panic"; "}"; "return"]
+  && block_in ["call:outer:ConvertCoin"; "if(err){"; "return-err"; "}"] shape_bridgeCallTransferTokens
+  && Nat.eqb (ntok "branch" shape_bridgeCallTransferTokens) 0
+  && block_in ["call:outer:HandleOutgoingBridgeCallRefund"; "call:outer:DeleteOutgoingBridgeCallRecord"] shape_cleanupTimeOutBridgeCall
+  && Nat.eqb (ntok "branch" shape_cleanupTimeOutBridgeCall) 0
+  && list_eqb shape_BridgeCallResultHandler
+       ["call:outer:CreateBridgeAccount"; "if(_){"; "panic"; "}"; "if(_){"; "call:outer:HandleOutgoingBridgeCallRefund"; "}";
+        "call:outer:DeleteOutgoingBridgeCallRecord"].
+
+(* none of the boundary functions recovers from a panic: a panic anywhere below them fails the whole transaction (nothing is
+   written) — the model has no "panic turned into a normal return" case.  In particular IBCMiddleware.OnRecvPacket: a panicking
+   follow-up never comes back as an acknowledgement *)
+Definition no_recover (l : list string) : bool := Nat.eqb (ntok "defer-recover" l) 0.
+Definition ok_no_recover : bool :=
+  forallb no_recover
+    [shape_processAttestation; shape_TryAttestation; shape_AttestationHandler; shape_ExecuteClaim;
+     shape_BridgeCallHandler; shape_BridgeCallEvm; shape_BridgeCallFailedRefund; shape_SendToFxExecuted; shape_transferIBCHandler;
+     shape_HandleOutgoingBridgeCallRefund; shape_bridgeCallTransferTokens; shape_cleanupTimeOutBridgeCall; shape_BridgeCallResultHandler;
+     shape_mwOnRecvPacket; shape_mwOnAcknowledgementPacket; shape_mwOnTimeoutPacket;
+     shape_relayOnRecvPacket; shape_relayOnAcknowledgementPacket; shape_IbcRefund; shape_coreRecvPacket].
+
 Definition source_shapes_ok : bool :=
   ok_handlers && ok_sendtofx &&
   ok_processAttestation && ok_TryAttestation && ok_BridgeCallHandler && ok_BridgeCallEvm && ok_refund && ok_ExecuteClaim
-  && ok_gov && ok_mwOnRecv && ok_relayOnRecv && ok_ack_timeout && ok_coreRecv.
+  && ok_gov && ok_mwOnRecv && ok_relayOnRecv && ok_ack_timeout && ok_coreRecv
+  && ok_outgoing_refund && ok_no_recover.
